@@ -23,7 +23,8 @@ from .report import HarnessError
 
 _ATOMS = (int, float, str, bytes, bool, type(None))
 SKIP_GLOBALS = {"__builtins__", "__doc__", "__loader__", "__spec__", "__cached__", "__file__",
-                "__name__", "__package__", "__path__", "__annotations__"}
+                "__name__", "__package__", "__path__", "__annotations__",
+                "__warningregistry__"}  # the last one is the warnings module's own bookkeeping
 
 
 def canon(v, depth=0, seen=None):
@@ -134,6 +135,26 @@ def diff_items(a, b):
     return sorted(f"{m}.{g}" for (m, g) in set(da) | set(db) if da.get((m, g)) != db.get((m, g)))
 
 
+def type_census(value):
+    """The set of exact type names found among the keys and leaves of one registry payload (list of
+    entry dicts, or index dict -> list of entry dicts); computed with C-level iteration only."""
+    import itertools
+    chain = itertools.chain.from_iterable
+    try:
+        if isinstance(value, dict):
+            keys = set(map(type, value))
+            parts = set(map(type, chain(k for k in value if type(k) is tuple)))
+            lists = set(map(type, value.values()))
+            entries = set(map(type, chain(v for v in value.values() if type(v) is list)))
+            return frozenset(t.__name__ for t in keys | parts | lists | entries)
+        entries = set(map(type, value))
+        leaves = set(map(type, chain(map(dict.values, value))))
+        names = set(map(type, chain(map(dict.keys, value))))
+        return frozenset(t.__name__ for t in entries | leaves | names)
+    except TypeError as e:
+        return frozenset(["<irregular: %s>" % e])
+
+
 class RegistrySnapshot:
     def __init__(self):
         reg = lib.registry._registry
@@ -142,6 +163,7 @@ class RegistrySnapshot:
         self.iban = {k: {kk: (vv.pattern if isinstance(vv, re.Pattern) else copy.deepcopy(vv))
                          for kk, vv in v.items()} for k, v in reg["iban"].items()}
         self.iban_order = list(reg["iban"])
+        self.types = {k: type_census(v) for k, v in self.big.items()}
 
     def check(self):
         """-> None or a description of the first difference."""
@@ -152,6 +174,10 @@ class RegistrySnapshot:
             cur = reg[k]
             if type(cur) is not type(snap):
                 return f"registry[{k!r}] changed type"
+            if type_census(cur) != self.types[k]:
+                # '==' cannot see a str replaced by an equal instance of a str subclass
+                return (f"registry[{k!r}]: the types of its values changed: "
+                        f"{sorted(self.types[k])} -> {sorted(type_census(cur))}")
             if isinstance(cur, dict):
                 if list(cur) != list(snap):
                     return f"registry[{k!r}] key set or key order changed"
